@@ -54,6 +54,72 @@ OPS += [("M", "xa.py", "xpk"), ("M", "xa.py", "xpk/xs"), ("M", "xpk/xm.py", ""),
         ("R", "xa.py", "xz"), ("R", "xpk/xm.py", "xn"), ("R", "xpk", "xq"), ("R", "xpk/xs", "xt"), ("P", "xa.py")]
 
 
+# ---------------------------------------------------------------- MoveMethod
+# destination class B: where it lives and how the source module reaches it
+MM_DESTS = {
+    "same-before": (None, None, "B()"),
+    "other-from": ("xd.py", "from xd import B", "B()"),
+    "other-import": ("xd.py", "import xd", "xd.B()"),
+    "pkg-from": ("xpk/xm.py", "from xpk.xm import B", "B()"),
+}
+MM_B = "class B:\n    val = 'B.val'\n\n    def other(self):\n        return 'B.other'\n"
+# (id, signature after self, body lines, call argument lists)
+MM_METHODS = [
+    ("noargs", "", ["return 'k'"], [""]),
+    ("param", ", p", ["return p + '!'"], ["'1'", "p='2'"]),
+    ("default-passed", ", p, q='d'", ["return p + q"], ["'1'", "'1', 'Q'", "p='1', q='K'"]),
+    ("kwonly", ", p, *, k='k'", ["return p + k"], ["'1'", "'1', k='K'"]),
+    ("star", ", *a", ["return '-'.join(a)"], ["", "'1', '2'"]),
+    ("dstar", ", **kw", ["return '-'.join(sorted(kw))"], ["", "u='1', v='2'"]),
+    ("self-field", ", p", ["return p + self.field"], ["'1'"]),
+    ("self-method", "", ["return self.second() + '.'"], [""]),
+    ("dest-attr", ", p", ["return p + self.attr.val"], ["'1'"]),
+    ("dest-method", "", ["return self.attr.other()"], [""]),
+    ("self-and-dest", ", p", ["t = self.field + p", "return t + self.attr.val"], ["'1'"]),
+    ("global-func", "", ["return helper()"], [""]),
+    ("global-var", "", ["return GV + '.'"], [""]),
+    ("imported-module", "", ["return xlib.LV + '.'"], [""]),
+    ("from-imported", "", ["return LV2 + '.'"], [""]),
+    ("own-class", "", ["return A.field + '.'"], [""]),
+    ("docstring", ", p", ['"""doc"""', "return p"], ["'1'"]),
+    ("multi-stmt", ", p", ["out = []", "for ch in p:", "    if ch != 'b':", "        out.append(ch + self.field)", "return ','.join(out)"], ["'abc'"]),
+    ("nested-def", ", p", ["def inner():", "    return self.field + p", "return inner()"], ["'1'"]),
+    ("lambda", ", p", ["fx = lambda z: z + self.field", "return fx(p)"], ["'1'"]),
+    ("local-named-host", ", p", ["host = p + '?'", "return host + self.field"], ["'1'"]),
+    ("param-named-host", ", host", ["return host + self.field"], ["'1'"]),
+    ("self-assign", ", p", ["self.extra = p", "return self.extra + '.'"], ["'1'"]),
+    ("one-line", ", p", None, ["'1'"]),
+    ("recursive", ", n", ["return 'r' if n == 0 else 'x' + self.mth(n - 1)"], ["2"]),
+]
+MM_NAMES = ["mth", "moved", "other"]
+
+
+def mm_files(dest, meth, in_client):
+    dpath, imp, ctor = MM_DESTS[dest]
+    mid, sig, body, calls = meth
+    files = {"xlib.py": "LV = 'xlib.LV'\nLV2 = 'xlib.LV2'\n", "xpk/__init__.py": "", "xpk/xm.py": "MV = 'xpk.xm.MV'\n"}
+    src = "import xlib\nfrom xlib import LV2\n"
+    if dpath:
+        files[dpath] = (files[dpath] + "\n\n" if dpath in files else "") + MM_B
+        src += imp + "\n"
+    src += "\nGV = 'xa.GV'\n\n\ndef helper():\n    return 'xa.helper'\n\n\n"
+    if not dpath:
+        src += MM_B + "\n\n"
+    src += "class A:\n    field = 'A.field'\n\n    def __init__(self):\n        self.attr = %s\n\n" % ctor
+    if body is None:
+        src += "    def mth(self%s): return p + '|'\n\n" % sig
+    else:
+        src += "    def mth(self%s):\n%s\n\n" % (sig, "\n".join("        " + l for l in body))
+    src += "    def second(self):\n        return 'A.second'\n\n    def caller(self):\n        return self.mth(%s)\n" % calls[0]
+    uses = "".join("print(%d, A().mth(%s))\n" % (i, c) for i, c in enumerate(calls)) + "print('c', A().caller())\n"
+    if in_client:
+        files["xc.py"] = "from xa import A\n\n" + uses
+    else:
+        src += "\n\n" + uses
+    files["xa.py"] = src
+    return files
+
+
 def styles_for(op, loc):
     """Client import styles relevant to the thing that moves."""
     k = op[0]
@@ -110,6 +176,11 @@ class C05(Check):
                     for e in range(len(EXTRA)):
                         out.append({"op": oi, "loc": loc, "block": [i], "extra": [e, "after"]})
                         out.append({"op": oi, "loc": loc, "block": [i], "extra": [e, "before"]})
+        for dest in MM_DESTS:
+            for mi in range(len(MM_METHODS)):
+                for name in MM_NAMES:
+                    for in_client in (False, True):
+                        out.append({"mm": [dest, mi, name, in_client]})
         return out
 
     def setup_worker(self):
@@ -118,6 +189,8 @@ class C05(Check):
     def run(self, case):
         triage = os.environ.get("MC_TRIAGE") == "1"
         res = {"n": 0, "nt": [], "out": {}, "mech": {}, "fails": [], "refused": 0, "passfeat": []}
+        if "mm" in case:
+            return self.run_mm(case, res, triage)
         op = OPS[case["op"]]
         loc = case["loc"]
         st = styles_for(op, loc)
@@ -198,6 +271,64 @@ class C05(Check):
         if triage:
             res["passfeat"].append(feats)
         res["sample"] = {"operation": list(op), "client": files[cpath]}
+        return res
+
+
+    def run_mm(self, case, res, triage):
+        dest, mi, name, in_client = case["mm"]
+        meth = MM_METHODS[mi]
+        files = mm_files(dest, meth, in_client)
+        res["n"] = 1
+        if compiles(files):
+            res["out"]["invalid-client"] = 1
+            return res
+        base = run_project(files)
+        if any(v[1] for v in base.values()):
+            res["out"]["base-raises"] = 1
+            res["harness"] = "MoveMethod base program raises: %r" % (base,)
+            return res
+        ctx = self.bench.open(files)
+        try:
+            src = files["xa.py"]
+
+            def make(p):
+                return move.create_move(p, p.get_file("xa.py"), src.index("def mth") + 4).get_changes("attr", name)
+            status, payload = ctx.refactor(make)
+            new = ctx.tree()
+        finally:
+            ctx.close()
+        feats = sorted({"op:MM", "dest:" + dest, "method:" + meth[0], "newname:" + ("same" if name == "mth" else "taken" if name == "other" else "fresh"),
+                        "uses:" + ("client" if in_client else "same-module")})
+        detail = {"operation": ["MoveMethod", "A.mth", "attr", name], "source": files["xa.py"]}
+        res["mech"]["MM"] = 1
+
+        def fail(k, extra):
+            res["fails"].append({"kind": k, "features": feats, "size": 1, "detail": dict(detail, **extra), "case": case})
+        if status == "refused":
+            res["refused"] = 1
+            res["out"]["refused"] = 1
+            return res
+        if status != "done":
+            fail(status if status != "internal" else "internal:" + str(payload).split(":")[0], {"message": str(payload)})
+            return res
+        res["nt"].append(h8(["MM", dest, meth[0], name, in_client]))
+        changed = {k: v for k, v in new.items() if files.get(k) != v}
+        bad = compiles(new)
+        if bad:
+            fail("syntax-error", {"result": changed, "message": bad[1]})
+            return res
+        got = run_project(new)
+        broken = {m: v for m, v in got.items() if v[1] is not None}
+        if broken:
+            fail("module-does-not-import", {"result": changed, "broken": broken})
+            return res
+        if got != base:
+            fail("behaviour-differs", {"result": changed, "before": base, "after": got})
+            return res
+        res["out"]["preserved"] = 1
+        if triage:
+            res["passfeat"].append(feats)
+        res["sample"] = {"operation": detail["operation"], "source": files["xa.py"]}
         return res
 
 
